@@ -356,7 +356,65 @@ Definition render_ok (c : render_input * render_obs) : bool :=
     all_rows (fun x y c => match shown stable_perm s 0 0 x y with Some v => c =? v | None => c =? 0 end) 0 scr
   else true.
 
+(* ---------------------------------------------------------------- render into any window; the clipping clause *)
+
+(* the window handed to render: the terminal window narrowed by a sequence of Window.New calls *)
+Definition win_chain (cols rows : Z) (frames : list frame) : window :=
+  fold_left (fun win (f : frame) => let '(c, r, w, h) := f in win_new win c r w h) frames [(0, 0, cols, rows)].
+
+Definition rect_has (r : frame) (x y : Z) : bool := let '(ox, oy, w, h) := r in in_rect ox oy w h x y.
+
+(* [justified s ox oy x y v]: value v at absolute (x,y) is cell (x-ox', y-oy') of the buffer of some
+   node of the tree placed at its absolute origin (ox',oy') = sum of the offsets on its path,
+   and (x,y) lies inside the rectangle of EVERY node on the path below the root (and of the
+   node itself).  Decidable; does not mention windows, sorting or render. *)
+Fixpoint justified (s : surface Z) (ox oy x y v : Z) : bool :=
+  let 'Surf w h buf kids := s in
+  (in_rect ox oy w h x y && match zget buf ((y - oy) * w + (x - ox)) with Some c => c =? v | None => false end)
+  || existsb (fun k : Z * Z * Z * surface Z =>
+                let '(col, row, z, ch) := k in
+                in_rect (ox + col) (oy + row) (s_w ch) (s_h ch) x y && justified ch (ox + col) (oy + row) x y v) kids.
+
+(* clause "each child at its offset, clipped to its parent" on one observed screen: every painted
+   (non-zero) cell is inside the clip of the window handed to render and is justified *)
+Definition clipped_ok (win : window) (s : surface Z) (scr : list (list Z)) : bool :=
+  let '(ox, oy) := win_org win in
+  all_rows (fun x y c => (c =? 0) || (win_clip win x y && justified s ox oy x y c)) 0 scr.
+
+Definition render_ok2 (c : render_input * render_obs) : bool :=
+  render_ok c &&
+  (let '((cols, rows, s), (out, scr)) := c in
+   if tree_wf_b s then clipped_ok [(0, 0, cols, rows)] s scr else true).
+
+Definition renderwin_input : Type := Z * Z * list frame * surface Z.
+
+Definition renderwin_run (inp : renderwin_input) : render_obs :=
+  let '(cols, rows, frames, s) := inp in
+  match render (win_chain cols rows frames) s with
+  | None => (1, [])
+  | Some ps => match screen_apply (new_screen 0 cols rows) ps with
+               | None => (1, [])
+               | Some sc => (0, sc_buf sc)
+               end
+  end.
+
+Definition renderwin_ok (c : renderwin_input * render_obs) : bool :=
+  let '((cols, rows, frames, s), (out, scr)) := c in
+  if tree_wf_b s then
+    let win := win_chain cols rows frames in
+    let '(ox, oy) := win_org win in
+    (out =? 0) && (zlen scr =? rows) && forallb (fun r => zlen r =? cols) scr &&
+    all_rows (fun x y c => match (if win_clip win x y then shown stable_perm s ox oy x y else None) with
+                           | Some v => c =? v | None => c =? 0 end) 0 scr &&
+    clipped_ok win s scr
+  else true.
+
+Definition c14_renderwin_mismatches (cases : list (renderwin_input * render_obs)) : list Z :=
+  bad_indices (fun c => negb (render_obs_eqb (renderwin_run (fst c)) (snd c))) cases.
+Definition c14_renderwin_violations (cases : list (renderwin_input * render_obs)) : list Z :=
+  bad_indices (fun c => negb (renderwin_ok c)) cases.
+
 Definition c14_render_mismatches (cases : list (render_input * render_obs)) : list Z :=
   bad_indices (fun c => negb (render_obs_eqb (render_run (fst c)) (snd c))) cases.
 Definition c14_render_violations (cases : list (render_input * render_obs)) : list Z :=
-  bad_indices (fun c => negb (render_ok c)) cases.
+  bad_indices (fun c => negb (render_ok2 c)) cases.
